@@ -63,8 +63,19 @@ def call(c, form):
         seq = "".join(str(x) for x in u)
     elif form == "list":
         seq = list(u)
-    else:
+    elif form == "array":
         seq = np.array(u)
+    elif form == "column":            # a column of a 2-D evolution array (non-contiguous view)
+        seq = np.array([[x, 7 - x, 3] for x in u])[:, 0]
+    elif form == "strided":           # every other element of a longer buffer
+        buf = np.zeros(2 * len(u), dtype=np.int64)
+        buf[::2] = u
+        buf[1::2] = 99
+        seq = buf[::2]
+    elif form == "reversed":          # negative stride
+        seq = np.array(u[::-1])[::-1]
+    else:                             # a narrow dtype
+        seq = np.array(u, dtype=form)
     return float(cpl.apen(seq, m=c["m"], r=c["r"]))
 
 
@@ -98,10 +109,18 @@ def oracle(c):
         vl = call(c, "list")
         va = call(c, "array")
         vs = call(c, "str") if c["digits"] else vl
+        extra = {}
+        for form in ("column", "strided", "reversed", "int32", "int16"):
+            extra[form] = call(c, form)
+        if all(-100 <= x <= 100 for x in c["u"]):
+            extra["int8"] = call(c, "int8")
     except Exception as e:
         return "raised %s" % type(e).__name__
     if not (fl.float_to_bits(vl) == fl.float_to_bits(va) == fl.float_to_bits(vs)):
         return "input forms disagree: list %r array %r string %r" % (vl, va, vs)
+    for form, v in extra.items():
+        if not fl.close(v, vl, 1e-12):
+            return "ndarray given as %s gives %r, the list form gives %r" % (form, v, vl)
     want = ref_apen(c["u"], c["m"], c["r"])
     if not fl.close(vl, want):
         return "apen = %r, |phi(m+1) - phi(m)| = %r" % (vl, want)
